@@ -51,8 +51,20 @@ def definition_loglik(u, w, edges_idx, weights, D):
     return ll
 
 
-def gen(rng):
+def gen(rng, mode=None):
     import hypergraphx as hgx
+
+    if mode == "big":
+        from ..gen import big_hypergraph
+
+        return big_hypergraph(rng, weighted=rng.random() < 0.4, sizes=(2, 2, 3, 3, 4, 5), n=rng.randint(25, 45), m=rng.randint(60, 140))
+    if mode == "single":
+        labels = rng.sample(list(history.UNIVERSES[rng.choice(["small", "gaps", "str"])]), rng.randint(3, 6))
+        h = hgx.Hypergraph([tuple(sorted(labels[: rng.randint(2, len(labels))]))])
+        for n in labels:
+            if rng.random() < 0.4:
+                h.add_node(n)
+        return h
 
     uni = rng.choice(["small", "gaps", "str", "bigneg", "npint"])
     labels = list(history.UNIVERSES[uni])
@@ -88,7 +100,10 @@ FORCED = {  # witness inputs of the open findings, re-confirmed on every run thr
 
 
 def run_case(ctx, rng, idx):
-    h = gen(rng)
+    mode = "big" if idx == 7 or (ctx.tier == "thorough" and idx % 300 == 11) else "single" if idx % 25 == 9 else None
+    if mode:
+        ctx.event(mode + "-input")
+    h = gen(rng, mode)
     evaluate(ctx, rng, idx, h, 0)
     if idx not in FORCED and idx % 3 == 0:
         # the same Hypergraph object fitted again after an in-place edit that keeps node and hyperedge counts
@@ -151,7 +166,8 @@ def evaluate(ctx, rng, idx, h, phase):
         no_trunc = cfg.get("min_value_par") == 0.0
 
     def wit(extra=None):
-        return {"nodes": list(map(repr, nodes)), "edges": [list(map(repr, e)) for e in edges], "weights": weights, "K": K, "seed": seed,
+        return {"nodes": list(map(repr, nodes)) if len(nodes) <= 20 else len(nodes), "edges": [list(map(repr, e)) for e in edges] if len(edges) <= 30 else len(edges),
+                "weights": weights if len(edges) <= 30 else None, "K": K, "seed": seed,
                 "cfg": cfg, "normalizeU": normalizeU, "baseline_r0": baseline, "extra": repr(extra)[:900]}
 
     # ---------------- HySC ------------------------------------------------------------------------
